@@ -116,7 +116,7 @@ OBL = [
     # ---------------- auxiliary data (hash-sigs layout) ---------------------------------------------------
     dict(id="aux-marker", fn=r"^hss::aux::hss_store_aux_marker$", site=r"(assert:BoundsCheck|call:core::slice::index::index_mut)", operand=None,
          reason="called only on the freshly shrunk buffer whose length is hss_get_aux_data_len(..) >= 1, and >= 4+n when the level word is non-zero",
-         requires=["aux-store-after-shrink"]),
+         requires=["aux-store-after-shrink", "aux-word-only-for-nonzero-level"]),
     dict(id="aux-shrink", fn=r"^hss::definitions::HssPrivateKey::get_expanded_aux_data$", site=r"call:core::slice::index::index_mut", operand=r"take\(aux_data\)",
          reason="aux_len is min-bounded by the buffer length: hss_get_aux_data_len returns 1 (buffer non-empty is tested first) or orig_len - rest <= orig_len",
          requires=["aux-nonempty-guard", "aux-len-le-input"]),
